@@ -9,7 +9,7 @@ def n_of(c, quick, thorough):
 
 
 def c03(tier=None):
-    c = Check("C03", ["Wasp.Properties.C03", "Wasp.Properties.C02Pool", "Wasp.Properties.C06", "Wasp.Properties.C04", "Wasp.Properties.Facts.C03"], tier)
+    c = Check("C03", ["Wasp.Properties.C03", "Wasp.Properties.C02Pool", "Wasp.Properties.C02E2E", "Wasp.Properties.C06", "Wasp.Properties.C04", "Wasp.Properties.Facts.C03"], tier)
     c.build()
     samples = []
     scs = brokerlib.corpus(c.rng, ["slow-qos2", "wrong-type-ack", "inbound-outbound-id", "ids-return-after-recipient-vanished"])
@@ -35,7 +35,7 @@ def c05(tier=None):
 
 
 def c14(tier=None):
-    c = Check("C14", ["Wasp.Properties.C14", "Wasp.Properties.Facts.C14"], tier)
+    c = Check("C14", ["Wasp.Properties.C14", "Wasp.Properties.Reachable2", "Wasp.Properties.E2EMulti", "Wasp.Properties.Facts.C14"], tier)
     c.build()
     samples = []
     scs = [gen_faults(c.rng, c.rng.choice([2, 3, 3])) for _ in range(n_of(c, 20, 250))]
@@ -46,7 +46,7 @@ def c14(tier=None):
 
 
 def c11(tier=None):
-    c = Check("C11", ["Wasp.Properties.C11", "Wasp.Properties.C11Time", "Wasp.Properties.C09", "Wasp.Properties.C08", "Wasp.Properties.Facts.C11"], tier)
+    c = Check("C11", ["Wasp.Properties.C11", "Wasp.Properties.C11Time", "Wasp.Properties.Reachable", "Wasp.Properties.C09", "Wasp.Properties.C08", "Wasp.Properties.Facts.C11"], tier)
     c.build()
     samples = []
     scs = [gen_lifecycle(c.rng, c.rng.choice([1, 2, 3]), 1, takeover=0.15) for _ in range(n_of(c, 12, 160))]
@@ -72,7 +72,7 @@ def c12(tier=None):
 
 
 def c13(tier=None):
-    c = Check("C13", ["Wasp.Properties.C13", "Wasp.Properties.Facts.C13"], tier)
+    c = Check("C13", ["Wasp.Properties.C13", "Wasp.Properties.E2ERetainWill", "Wasp.Properties.Facts.C13"], tier)
     c.build()
     samples = []
     scs = [gen_converged(c.rng, c.rng.choice([1, 2, 3]), 1, c.rng.choice([8, 12]), {"end": 5, "connect": 4, "sub": 4, "pub": 2}) for _ in range(n_of(c, 12, 160))]
@@ -82,7 +82,7 @@ def c13(tier=None):
 
 
 def c17(tier=None):
-    c = Check("C17", ["Wasp.Properties.C17", "Wasp.Proofs.Generated", "Wasp.Properties.Facts.C17"], tier)
+    c = Check("C17", ["Wasp.Properties.C17", "Wasp.Properties.C17E2E", "Wasp.Proofs.Generated", "Wasp.Properties.Facts.C17"], tier)
     c.build()
     samples = []
     scs = [gen_converged(c.rng, c.rng.choice([1, 2]), c.rng.choice([2, 3]), c.rng.choice([12, 18]), {"pub": 8, "sub": 5, "end": 2}) for _ in range(n_of(c, 10, 150))]
@@ -94,7 +94,7 @@ def c17(tier=None):
 
 
 def c02(tier=None):
-    c = Check("C02", ["Wasp.Properties.C02", "Wasp.Properties.C02Pool", "Wasp.Properties.C15", "Wasp.Properties.Facts.C02"], tier)
+    c = Check("C02", ["Wasp.Properties.C02", "Wasp.Properties.C02Pool", "Wasp.Properties.C02E2E", "Wasp.Properties.Reachable", "Wasp.Properties.C15", "Wasp.Properties.Facts.C02"], tier)
     c.build()
     samples = []
     scs = brokerlib.corpus(c.rng, ["first-message", "slow-qos2", "inbound-outbound-id", "ids-return-after-recipient-vanished"])
